@@ -67,12 +67,17 @@ def allowed_upper_bound(doc) -> int:
 
 
 def outputs_of(jp, env, q, doc, cap, late_flag=False):
+    from .. import impl  # noqa: PLC0415
+
     if late_flag:
         # compile first, switch nondeterminism on afterwards, on the instance
         env = jp.JSONPathEnvironment()
+        jp.DEFAULT_ENV.compile(q)          # the (deterministic) default environment has seen the text before
         c = env.compile(q)
         env.nondeterministic = True
     else:
+        # another instance of the same class, deterministic on the instance, has seen the text before
+        impl._sibling_first(jp, env, q)
         c = env.compile(q)
 
     def one():
